@@ -702,7 +702,7 @@ func runNode(c *Ctx) {
 	if lines := c.CorpusLines(); len(lines) > 0 {
 		replayNode(c, lines)
 	}
-	for i := 0; i < c.N; i++ {
+	for i := 0; i < c.N && !concWedged; i++ {
 		runNodeCase(c, mode, c.Seed, i)
 	}
 	closeParkedNodes()
